@@ -60,6 +60,7 @@ def layerOfJson (j : Json) : Except String Layer := do
     match (← getStr j "kind") with
     | "plain" => pure LKind.plain
     | "rnn" => pure LKind.rnn
+    | "bidir" => pure LKind.bidir
     | "folded" => pure LKind.folded
     | "noq" => pure LKind.noQuant
     | k => throw s!"bad layer kind {k}"
@@ -89,7 +90,10 @@ def layerOfJson (j : Json) : Except String Layer := do
   pure { cls := ← getStr j "cls", kind := kind, qs := qs, fwd := fwd,
          fold := fun ws => match foldTab.find? (fun r => r.1 == ws) with | some r => r.2 | none => [poison],
          useBias := ← getBool j "use_bias", bn := bn, pool := pool,
-         succ := ← getNatList j "succ", allow := ← getBool j "allow" }
+         succ := ← getNatList j "succ", allow := ← getBool j "allow",
+         dirW := match j.getObjVal? "dir_w" with
+                 | .ok v => (v.getNat?).toOption.getD 0
+                 | .error _ => 0 }
 
 def envOfJson (j : Json) : Except String Env := do
   let rsqTab ←
